@@ -12,11 +12,15 @@ Mode == IOEnv.MODE
 
 Fld(u, t, n) == [used |-> u, term |-> t, name |-> n]
 FieldSeqs == UNION { [1..n -> BOOLEAN \X BOOLEAN] : n \in 1..3 }
-MkFields(fs, style) == [k \in DOMAIN fs |-> Fld(fs[k][1], fs[k][2], IF style = "named" THEN (IF fs[k][1] THEN <<"fa", "fb", "fc">>[k] ELSE "_") ELSE "")]
+\* field names: an ordinary one, one starting with an underscore, one without any letter (all legal Kiki field names;
+\* only the bare `_` means "skipped")
+MkFields(fs, style) == [k \in DOMAIN fs |-> Fld(fs[k][1], fs[k][2], IF style = "named" THEN (IF fs[k][1] THEN <<"_fa", "fb", "__">>[k] ELSE "_") ELSE "")]
 Decls == { [ctor |-> c, style |-> "empty", fields |-> <<>>] : c \in {"struct", "variant"} }
          \cup { [ctor |-> c, style |-> s, fields |-> MkFields(fs, s)] : c \in {"struct", "variant"}, s \in {"named", "tuple"}, fs \in FieldSeqs }
 
-Idents == {"a", "B", "c9"}
+\* "N" is also the name of a nonterminal of the grammars the types are embedded in (lib/paytypes.py): a payload type may
+\* legitimately be spelled like a nonterminal; it still denotes the user's own Rust type and must not be treated as one
+Idents == {"a9", "B", "N"}
 Paths == { <<x>> : x \in Idents } \cup { <<x, y>> : x \in Idents, y \in Idents }
 T0 == { [k |-> "unit", path |-> <<>>, args |-> <<>>] } \cup { [k |-> "path", path |-> p, args |-> <<>>] : p \in Paths }
 T1 == T0 \cup { [k |-> "app", path |-> p, args |-> a] : p \in Paths, a \in { <<x>> : x \in T0 } \cup { <<x, y>> : x \in T0, y \in T0 } }
